@@ -397,6 +397,397 @@ fn eval_case(ctx: &mut Ctx, case: &StaticCase, only: Option<(Enc, bool)>) {
     }
 }
 
+
+// ---------------------------------------------------------------------------------------------
+// CNFs of frameworks beyond exhaustive subset enumeration (65-140 arguments)
+// ---------------------------------------------------------------------------------------------
+
+/// Validates the CNF an encoder emits for a framework that is too big for subset enumeration.
+///
+/// * **No model outside the family — exact, by one SAT call per CNF**: the CNF is conjoined (in an
+///   independent CaDiCaL instance) with a definition, over fresh variables, of "the set on the
+///   argument variables violates the family's definition somewhere" (a conflict; a member with an
+///   attacker that the set does not attack; a non-member all of whose attackers are attacked; with
+///   range variables: a range variable true for an argument outside the range).  SAT = a model that
+///   is not in the family; the set read off the model is re-checked by the polynomial definition
+///   check before it is reported.
+/// * **No member without a model — sampled**: members produced independently of the encoder
+///   (grounded extension, greedy conflict-free sets pruned to admissible ones and closed to complete
+///   ones, sets found by the reference labelling encoding under random constraints) must each be
+///   extendable to a model, with range variables equal to the member's range.
+fn judge_encoder_big<T: HLabel>(
+    ctx: &mut Ctx,
+    case: &StaticCase,
+    built: &Built<T>,
+    enc: Enc,
+    with_range: bool,
+    rng: &mut Rng,
+) -> Option<(String, Value)> {
+    use crate::refsat::{Base, RefSat};
+    let n = case.abs.n;
+    let name = format!("{}{}+big", enc.name(), if with_range { "+range" } else { "" });
+    let encoder = enc.make::<T>();
+    let mut rec = RecSolver::default();
+    let r = catch(|| {
+        if with_range {
+            encoder.encode_constraints_and_range(&built.af, &mut rec)
+        } else {
+            encoder.encode_constraints(&built.af, &mut rec)
+        }
+    });
+    if let Err(p) = r {
+        return Some((format!("C10/panic/encode/{}/{}", name, p.site()), p.to_json()));
+    }
+    ctx.count("cnfs_validated");
+    ctx.count("big_cnfs_validated");
+    ctx.count(&format!("cnfs/{}", name));
+    ctx.maximum("max_cnf_vars", rec.n_vars() as u64);
+    ctx.maximum("max_cnf_clauses", rec.clauses.len() as u64);
+    ctx.maximum("max_arguments_of_a_validated_cnf", n as u64);
+    let mut lits: Vec<i32> = Vec::with_capacity(n);
+    for i in 0..n {
+        let arg = built.af.argument_set().get_argument(&built.labels[i]).unwrap();
+        match catch(|| isize::from(encoder.arg_to_lit(arg))) {
+            Ok(l) if l > 0 => lits.push(l as i32),
+            Ok(l) => return Some((format!("C10/arg_to_lit-not-positive/{}", name), json!({"argument": i, "literal": l}))),
+            Err(p) => return Some((format!("C10/panic/arg_to_lit/{}/{}", name, p.site()), p.to_json())),
+        }
+    }
+    {
+        let mut seen = std::collections::BTreeSet::new();
+        for (i, l) in lits.iter().enumerate() {
+            if !seen.insert(*l) {
+                return Some((format!("C10/arg_to_lit-not-injective/{}", name), json!({"argument": i, "literal": l})));
+            }
+        }
+    }
+    let first_range = if with_range {
+        match catch(|| encoder.first_range_var(n)) {
+            Ok(v) => Some(v),
+            Err(p) => return Some((format!("C10/panic/first_range_var/{}/{}", name, p.site()), p.to_json())),
+        }
+    } else {
+        None
+    };
+    let rvar = |i: usize| -> i32 {
+        let id = built.af.argument_set().get_argument(&built.labels[i]).unwrap().id();
+        (first_range.unwrap() + id) as i32
+    };
+    if let Some(fr) = first_range {
+        for (i, l) in lits.iter().enumerate() {
+            let v = *l as usize;
+            if v >= fr && v < fr + n {
+                return Some((format!("C10/arg-literal-inside-range-block/{}", name), json!({"argument": i, "literal": l, "first_range_var": fr})));
+            }
+        }
+    }
+    // attackers by abstract index (set semantics: repeated attack lines do not matter)
+    let mut attackers: Vec<std::collections::BTreeSet<usize>> = vec![Default::default(); n];
+    for (a, b) in case.abs.att.iter() {
+        attackers[*b].insert(*a);
+    }
+    let fam = family_of(enc);
+    let rsat = RefSat::new(&case.abs);
+    let is_member = |set: &[usize]| -> bool {
+        match fam {
+            Family::Cf => rsat.is_cf(set),
+            Family::Adm => rsat.is_adm(set),
+            Family::Co => rsat.is_co(set),
+            Family::St => rsat.is_st(set),
+        }
+    };
+    let mut top = rec.n_vars() as i32;
+    for l in lits.iter() {
+        top = top.max(*l);
+    }
+    if let Some(fr) = first_range {
+        top = top.max((fr + n) as i32);
+    }
+    let base_solver = || -> cadical::Solver {
+        let mut s: cadical::Solver = cadical::Solver::new();
+        for c in rec.clauses.iter() {
+            s.add_clause(c.iter().map(|l| *l as i32));
+        }
+        s
+    };
+    // ---- (1) no model outside the family: exact ----
+    {
+        let mut s = base_solver();
+        let mut next = top + 1;
+        let mut fresh = || {
+            let v = next;
+            next += 1;
+            v
+        };
+        // d[b] <-> some attacker of b is in the set
+        let d: Vec<i32> = (0..n).map(|_| fresh()).collect();
+        for b in 0..n {
+            let mut c: Vec<i32> = vec![-d[b]];
+            for a in attackers[b].iter() {
+                c.push(lits[*a]);
+                s.add_clause([d[b], -lits[*a]]);
+            }
+            s.add_clause(c);
+        }
+        let mut violations: Vec<i32> = Vec::new();
+        // conflict: both ends of an attack in the set
+        for (a, b) in case.abs.att.iter() {
+            let v = fresh();
+            s.add_clause([-v, lits[*a]]);
+            s.add_clause([-v, lits[*b]]);
+            violations.push(v);
+        }
+        if matches!(fam, Family::Adm | Family::Co) {
+            // a member with an attacker that the set does not attack
+            for a in 0..n {
+                for b in attackers[a].iter() {
+                    let v = fresh();
+                    s.add_clause([-v, lits[a]]);
+                    s.add_clause([-v, -d[*b]]);
+                    violations.push(v);
+                }
+            }
+        }
+        if fam == Family::Co {
+            // a non-member all of whose attackers are attacked by the set
+            for a in 0..n {
+                let v = fresh();
+                s.add_clause([-v, -lits[a]]);
+                for b in attackers[a].iter() {
+                    s.add_clause([-v, d[*b]]);
+                }
+                violations.push(v);
+            }
+        }
+        if fam == Family::St {
+            // an argument neither in the set nor attacked by it
+            for a in 0..n {
+                let v = fresh();
+                s.add_clause([-v, -lits[a]]);
+                s.add_clause([-v, -d[a]]);
+                violations.push(v);
+            }
+        }
+        let mut range_violation_from = violations.len();
+        if with_range {
+            range_violation_from = violations.len();
+            // a range variable true for an argument outside the range of the set
+            for a in 0..n {
+                let v = fresh();
+                s.add_clause([-v, rvar(a)]);
+                s.add_clause([-v, -lits[a]]);
+                s.add_clause([-v, -d[a]]);
+                violations.push(v);
+            }
+        }
+        s.add_clause(violations.iter().copied());
+        ctx.eval();
+        match s.solve() {
+            None => {
+                ctx.inconclusive("reference-solver-undecided");
+                return None;
+            }
+            Some(false) => ctx.count("big/no-model-outside-the-family-proved-by-sat"),
+            Some(true) => {
+                let set: Vec<usize> = (0..n).filter(|i| s.value(lits[*i]) == Some(true)).collect();
+                let range_hit: Vec<usize> = if with_range {
+                    (0..n).filter(|a| s.value(violations[range_violation_from + *a]) == Some(true)).collect()
+                } else {
+                    vec![]
+                };
+                if !is_member(&set) {
+                    return Some((
+                        format!("C10/model-set-differs/{}/extra-model", name),
+                        json!({"set": set, "cnf_satisfiable_with_exactly_this_set": true, "set_in_intended_family": false,
+                               "family": format!("{:?}", fam), "n_vars": rec.n_vars(), "n_clauses": rec.clauses.len()}),
+                    ));
+                } else if !range_hit.is_empty() {
+                    let range = rsat.range_of(&set);
+                    if range_hit.iter().any(|a| !range[*a]) {
+                        return Some((
+                            format!("C10/range/range-variable-true-outside-range/{}", name),
+                            json!({"set": set, "arguments": range_hit}),
+                        ));
+                    }
+                    ctx.harness_error("C10 big: the violation definition fired on a range variable inside the range");
+                    return None;
+                } else {
+                    ctx.harness_error("C10 big: the violation definition fired on a set that the definition check accepts");
+                    return None;
+                }
+            }
+        }
+    }
+    // ---- (2) members must have a model: sampled ----
+    let mut members: Vec<Vec<usize>> = Vec::new();
+    let close = |set: &mut Vec<bool>| {
+        // prune to an admissible set, then close under the characteristic function
+        loop {
+            let attacked_by: Vec<bool> = (0..n).map(|b| attackers[b].iter().any(|a| set[*a])).collect();
+            let mut changed = false;
+            for a in 0..n {
+                if set[a] && (attackers[a].iter().any(|b| !attacked_by[*b]) || attacked_by[a]) {
+                    set[a] = false;
+                    changed = true;
+                }
+            }
+            if !changed {
+                break;
+            }
+        }
+    };
+    let grow = |set: &mut Vec<bool>| loop {
+        let attacked_by: Vec<bool> = (0..n).map(|b| attackers[b].iter().any(|a| set[*a])).collect();
+        let mut changed = false;
+        for a in 0..n {
+            if !set[a] && attackers[a].iter().all(|b| attacked_by[*b]) {
+                set[a] = true;
+                changed = true;
+            }
+        }
+        if !changed {
+            break;
+        }
+    };
+    let to_vec = |set: &Vec<bool>| -> Vec<usize> { (0..n).filter(|i| set[*i]).collect() };
+    for _ in 0..12 {
+        // greedy conflict-free set in random order
+        let mut order: Vec<usize> = (0..n).collect();
+        rng.shuffle(&mut order);
+        let mut set = vec![false; n];
+        let density = *rng.pick(&[20usize, 50, 100]);
+        for a in order {
+            if !rng.pct(density) || attackers[a].contains(&a) {
+                continue;
+            }
+            let conflict = attackers[a].iter().any(|b| set[*b]) || (0..n).any(|b| set[b] && attackers[b].contains(&a));
+            if !conflict {
+                set[a] = true;
+            }
+        }
+        match fam {
+            Family::Cf => members.push(to_vec(&set)),
+            Family::Adm => {
+                close(&mut set);
+                members.push(to_vec(&set));
+            }
+            Family::Co => {
+                close(&mut set);
+                grow(&mut set);
+                members.push(to_vec(&set));
+            }
+            Family::St => {}
+        }
+    }
+    {
+        // members from the independent labelling encoding, under random constraints
+        let mut rs2 = RefSat::new(&case.abs);
+        let base = match fam {
+            Family::Cf => Base::Cf,
+            Family::Adm => Base::Adm,
+            Family::Co => Base::Co,
+            Family::St => Base::St,
+        };
+        for _ in 0..8 {
+            let want: Vec<usize> = (0..rng.range(1, 3)).map(|_| rng.below(n)).collect();
+            let avoid: Vec<usize> = (0..rng.range(0, 3)).map(|_| rng.below(n)).filter(|a| !want.contains(a)).collect();
+            if let Some(m) = rs2.find(base, Some(&want), &avoid, None) {
+                members.push(m);
+            }
+        }
+        if let Some(m) = rs2.find(base, None, &[], None) {
+            members.push(m);
+        }
+    }
+    let mut s2 = base_solver();
+    for m in members.iter() {
+        if !is_member(m) {
+            ctx.harness_error("C10 big: a generated member fails the definition check");
+            return None;
+        }
+        ctx.eval();
+        ctx.count("big/members-checked-for-a-model");
+        let mut inn = vec![false; n];
+        for a in m.iter() {
+            inn[*a] = true;
+        }
+        let mut ass: Vec<i32> = (0..n).map(|i| if inn[i] { lits[i] } else { -lits[i] }).collect();
+        if with_range {
+            let range = rsat.range_of(m);
+            for i in 0..n {
+                ass.push(if range[i] { rvar(i) } else { -rvar(i) });
+            }
+        }
+        match s2.solve_with(ass.iter().copied()) {
+            Some(true) => {}
+            Some(false) => {
+                // tell a missing model from a range-only failure
+                let plain: Vec<i32> = (0..n).map(|i| if inn[i] { lits[i] } else { -lits[i] }).collect();
+                let sat_plain = s2.solve_with(plain.iter().copied()) == Some(true);
+                return Some(if sat_plain {
+                    (format!("C10/range/no-model-with-range-variables-equal-to-range/{}", name), json!({"set": m}))
+                } else {
+                    (
+                        format!("C10/model-set-differs/{}/missing-model", name),
+                        json!({"set": m, "cnf_satisfiable_with_exactly_this_set": false, "set_in_intended_family": true, "family": format!("{:?}", fam)}),
+                    )
+                });
+            }
+            None => ctx.inconclusive("reference-solver-undecided"),
+        }
+    }
+    ctx.nontrivial(gen::case_hash(&case.abs, &[case.pres.kind(), &name]));
+    ctx.sample(&format!("cnf/{}", name), || {
+        json!({"case": case.short(), "encoder": name, "n_vars": rec.n_vars(), "n_clauses": rec.clauses.len(), "members_checked": members.len()})
+    });
+    None
+}
+
+fn eval_big_case(ctx: &mut Ctx, case: &StaticCase, rng: &mut Rng, only: Option<(Enc, bool)>) {
+    fn go<T: HLabel>(ctx: &mut Ctx, case: &StaticCase, built: &Built<T>, rng: &mut Rng, only: Option<(Enc, bool)>) {
+        if check_presents(built, &case.abs).is_err() {
+            ctx.inconclusive("presentation-mismatch");
+            return;
+        }
+        let cost = crate::props::static_eval::exp_cost_built(built);
+        for enc in ENCODERS {
+            if enc == Enc::ExpCo && cost > crate::props::static_eval::EXP_COST_LIMIT {
+                ctx.count("skipped/exp-encoder-clause-explosion");
+                continue;
+            }
+            for with_range in [false, true] {
+                if with_range && enc == Enc::Stable {
+                    continue;
+                }
+                if let Some((e, r)) = only {
+                    if e != enc || r != with_range {
+                        continue;
+                    }
+                }
+                if let Some((sig, detail)) = judge_encoder_big(ctx, case, built, enc, with_range, rng) {
+                    let mut d = detail;
+                    d["encoder"] = json!(enc.name());
+                    d["with_range"] = json!(with_range);
+                    d["big"] = json!(true);
+                    ctx.violation(&sig, d, &case.to_json());
+                }
+            }
+        }
+    }
+    ctx.count(&format!("cases/{}", case.family));
+    if case.pres.is_usize() {
+        match build_usize(&case.pres) {
+            Ok(b) => go(ctx, case, &b, rng, only),
+            Err(e) => ctx.harness_error(&e),
+        }
+    } else {
+        match build_string(&case.pres) {
+            Ok(b) => go(ctx, case, &b, rng, only),
+            Err(e) => ctx.harness_error(&e),
+        }
+    }
+}
+
 /// Compact-id presentations only (readers, new_with_labels, plain API): what the encoders are fed.
 fn compact_case(family: &str, i: u64, seed: u64, rng: &mut Rng) -> StaticCase {
     let lim = GenLimits {
@@ -458,6 +849,24 @@ pub fn run(ctx: &mut Ctx) {
         ("dup", if q { 1_600 } else { 25_000 }),
         ("threshold", if q { 640 } else { 8_000 }),
     ];
+    // CNFs of 65-140 argument frameworks: exact "no model outside the family" by SAT, sampled members
+    let n_big: u64 = if q { 240 } else { 4_000 };
+    for i in 0..n_big {
+        if !ctx.mine(i) {
+            continue;
+        }
+        if ctx.out_of_time() {
+            return;
+        }
+        let mut rng = Rng::from_path(&[ctx.seed, 10, 0xb16, i]);
+        let lim = GenLimits { er_max: 7, big_min: 65, big_max: 140 };
+        let fam = *rng.pick(&["big-conn", "big-conn", "big-union"]);
+        let mut case = gen_case(fam, i, ctx.seed, &lim);
+        let kind = *rng.pick(&["iccma", "iccma-dup", "apx", "nwl-u", "nwl-s"]);
+        case.pres = crate::present::present(&case.abs, kind, &mut rng);
+        ctx.case_begin(&json!({"family": fam, "i": i, "big": true}));
+        crate::report::guarded(ctx, |ctx| eval_big_case(ctx, &case, &mut rng, None));
+    }
     let mut gi = 0u64;
     for (family, count) in schedule {
         for i in 0..count {
@@ -490,6 +899,11 @@ pub fn replay(ctx: &mut Ctx, case: &Value, detail: &Value) -> Result<(), String>
         .and_then(|e| e.as_str())
         .and_then(Enc::from_name)
         .map(|e| (e, detail.get("with_range").and_then(|r| r.as_bool()).unwrap_or(false)));
-    eval_case(ctx, &c, only);
+    if detail.get("big").and_then(|b| b.as_bool()).unwrap_or(false) {
+        let mut rng = Rng::new(5);
+        eval_big_case(ctx, &c, &mut rng, only);
+    } else {
+        eval_case(ctx, &c, only);
+    }
     Ok(())
 }
